@@ -72,21 +72,65 @@ def R1_constants(run):
               detail="0 / 4 / 36 / 52 (+8 = the view's)")
 
 
+def bitmap_updates(facts, fn, label):
+    """Bitmap write-backs of update_tick, read with update_tick_bitmap spliced in (a helper call with a literal flag and the same
+    update written in place are one text): [(block, "set" | "clear" | "?...", offset term)] for every store of
+    to_le_bytes(V) into the bitmap field (Pinocchio view) / into bytes TICK_BITMAP_OFFSET..+16 of the data (Anchor loader), with
+    V = bitmap | (1 << offset) or bitmap & !(1 << offset) over the array's own current bitmap."""
+    pv = prov_of(fn)
+    vals = []
+    if label == "pinocchio":
+        for w in writes.field_stores(facts):
+            if w["fn"] is fn and w["field"] == "tick_bitmap":
+                vals.append((w["block"], pv._rvalue(w["rv"], w["block"], w["stmt"], 0)))
+    else:
+        for bi, t in fn.calls():
+            if (callee_path(t) or "").endswith("copy_from_slice") and not fn.blocks[bi]["c"]:
+                dst = pv.operand(t["a"][0], bi, len(fn.blocks[bi]["s"]))
+                rg = [x for x in subterms(dst) if x[0] == "agg" and x[1].endswith("Range")]
+                if len(rg) == 1 and const_val(dict(rg[0][3])["start"]) == 36 and mentions(dst, lambda x: x[0] == "field" and x[2] == "0"):
+                    e = strip(dict(rg[0][3])["end"])
+                    if const_val(e) == 52 or (e[0] == "bin" and e[1].startswith("Add") and {const_val(e[2]), const_val(e[3])} == {36, 16}):
+                        vals.append((bi, pv.operand(t["a"][1], bi, len(fn.blocks[bi]["s"]))))
+    out = []
+    for bi, v in vals:
+        for alt in leaves(v):
+            a = strip(alt)
+            if not (a[0] == "call" and a[1].endswith("to_le_bytes") and len(a[2]) == 1):
+                out.append((bi, "?not le bytes: " + sh(a, 50), None))
+                continue
+            for w_ in leaves(a[2][0]):
+                w_ = strip(w_)
+                kind, off = "?" + sh(w_, 60), None
+                if w_[0] == "bin" and w_[1] in ("BitOr", "BitAnd"):
+                    for (b_, m_) in ((strip(w_[2]), strip(w_[3])), (strip(w_[3]), strip(w_[2]))):
+                        if not (b_[0] == "call" and b_[1].endswith("::tick_bitmap") and len(b_[2]) == 1 and is_param(strip(b_[2][0]), "self")):
+                            continue
+                        if w_[1] == "BitAnd":
+                            if not (m_[0] == "un" and m_[1] == "Not"):
+                                continue
+                            m_ = strip(m_[2])
+                        if m_[0] == "bin" and m_[1] in ("Shl", "ShlUnchecked") and const_val(m_[2]) == 1:
+                            kind, off = ("set" if w_[1] == "BitOr" else "clear"), strip(m_[3])
+                out.append((bi, kind, off))
+    return out
+
+
 def _update_tick_model(run, fn, label, init_test, upd_init):
     """Common pairing check. init_test(term) recognises `slot was initialised`; upd_init(term) recognises update.initialized."""
     facts = run.facts
     pv = prov_of(fn)
     rr = [(bi, t) for bi, t in fn.calls() if (callee_path(t) or "").endswith("rotate_right")]
     rl = [(bi, t) for bi, t in fn.calls() if (callee_path(t) or "").endswith("rotate_left")]
-    bm = calls_to(fn, lambda p: p.endswith("update_tick_bitmap"))
+    bm = bitmap_updates(facts, fn, label)
     ok = len(rr) == 1 and len(rl) == 1 and len(bm) == 2
     run.check("R2", "sites@" + label, ok, "%s has %d right / %d left rotations and %d bitmap updates, expected 1 / 1 / 2" % (fn.path, len(rr), len(rl), len(bm)), loc=fn.loc(), detail="1 rotate_right, 1 rotate_left, 2 bitmap updates")
     if not ok:
         return
-    set_call = [c for c in bm if const_val(c[2][2]) == 1]
-    clr_call = [c for c in bm if const_val(c[2][2]) == 0]
+    set_call = [c for c in bm if c[1] == "set"]
+    clr_call = [c for c in bm if c[1] == "clear"]
     ok = len(set_call) == 1 and len(clr_call) == 1
-    run.check("R2", "bitmap-flags@" + label, ok, "%s: bitmap updates do not set once and clear once" % fn.path, loc=fn.loc(), detail="(offset, true) and (offset, false)")
+    run.check("R2", "bitmap-flags@" + label, ok, "%s: bitmap updates do not set once and clear once (%s)" % (fn.path, [c[1] for c in bm]), loc=fn.loc(), detail="bitmap | (1 << offset) once and bitmap & !(1 << offset) once")
     if not ok:
         return
     for name, rot, bmc in (("init", rr[0], set_call[0]), ("deinit", rl[0], clr_call[0])):
@@ -108,8 +152,8 @@ def _update_tick_model(run, fn, label, init_test, upd_init):
         run.check("R2", "slice-start:%s@%s" % (name, label), ok, "%s: the rotated slice does not start at byte_offset(tick offset)" % fn.path, loc=fn.loc(rot[1]["l"]), detail="data[byte_offset..]")
         # bitmap offset argument is the tick offset given to byte_offset
         bo = [s for s in subterms(sl) if s[0] == "call" and s[1].endswith("byte_offset")]
-        ok = bool(bo) and strip(bo[0][2][1]) == strip(bmc[2][1])
-        run.check("R2", "same-slot:%s@%s" % (name, label), ok, "%s: bitmap bit %s is not the slot whose bytes are rotated" % (fn.path, sh(bmc[2][1], 40)), loc=fn.loc(), detail="bitmap bit = tick offset of the rotated slot")
+        ok = bool(bo) and strip(bo[0][2][1]) == strip(bmc[2])
+        run.check("R2", "same-slot:%s@%s" % (name, label), ok, "%s: bitmap bit %s is not the slot whose bytes are rotated" % (fn.path, sh(bmc[2], 40)), loc=fn.loc(), detail="bitmap bit = tick offset of the rotated slot")
         # guard conditions
         guards = []
         for at in A.atoms(fn):
@@ -231,38 +275,16 @@ def R3_byte_offset(run):
     neg = any(o == "Lt" and is_param(x, "tick_offset") and const_val(y) == 0 and "TickNotFound" in (at.true_codes | at.false_codes) for at in A.atoms(a) for (op, q, r) in fail_conditions(at) for (o, x, y) in ((op, q, r), (A.SWAP[op], r, q)))
     run.check("R3", "negative-offset@anchor", neg, "Anchor byte_offset no longer rejects negative offsets", loc=a.loc(), detail="offset < 0 => TickNotFound")
     run.check("R3", "unsigned-offset@pinocchio", p.sig["in"][1] == "usize", "Pinocchio byte_offset takes %s; a signed offset would need a negativity check" % p.sig["in"][1], loc=p.loc(), detail="offset: usize")
-    for path, label in (("state::dynamic_tick_array::DynamicTickArrayLoader::update_tick_bitmap", "anchor"), (PD + "MemoryMappedDynamicTickArray::update_tick_bitmap", "pinocchio")):
+    for path, label in ((DYN + "::update_tick", "anchor"), (PDYN + "::update_tick", "pinocchio")):
         fn = facts.need_fn(path)
         run.touch(fn)
-        for val in (True, False):
-            pv = prov_of(fn, {"initialized": val}, cut=True)
-            # the bitmap being edited: the one re-assigned local (whatever it is called)
-            multi = [l_ for l_ in range(fn.argc + 1, len(fn.locals)) if fn.locals[l_].get("n") and len([d for d in pv.defs.get(l_, []) if d[2] is None]) > 1]
-            l = multi[0] if len(multi) == 1 else None
-            defs = [strip(t) for (_, _, t) in pv.var_defs(l)] if l else []
-            upd = [t for t in defs if t[0] == "bin"]
-            ok = len(upd) == 1
-            if ok:
-                t = upd[0]
-                bit = None
-                if val:
-                    ok = t[1] == "BitOr"
-                    bit = strip(t[3]) if strip(t[2])[0] == "var" else strip(t[2])
-                else:
-                    ok = t[1] == "BitAnd"
-                    inv = strip(t[3]) if strip(t[2])[0] == "var" else strip(t[2])
-                    ok = ok and inv[0] == "un" and inv[1] == "Not"
-                    bit = strip(inv[2]) if ok else None
-                ok = ok and bit is not None and bit[0] == "bin" and bit[1] in ("Shl", "ShlUnchecked") and const_val(bit[2]) == 1 and is_param(bit[3], "tick_offset")
-            run.check("R3", "bitmap-%s@%s" % ("set" if val else "clear", label), ok, "%s(initialized=%s) updates the bitmap with %s" % (path, val, [sh(t, 60) for t in upd]), loc=fn.loc(),
-                      detail="bitmap %s (1 << offset)" % ("|=" if val else "&= !"))
-        # stored back
-        if label == "pinocchio":
-            ws = [w for w in writes.field_stores(facts) if w["fn"] is fn and w["field"] == "tick_bitmap"]
-            ok = len(ws) >= 1
-        else:
-            ok = any((callee_path(t) or "").endswith("copy_from_slice") for _, t in fn.calls())
-        run.check("R3", "bitmap-stored@" + label, ok, "%s does not store the updated bitmap" % path, loc=fn.loc(), detail="bitmap written back")
+        ev = bitmap_updates(facts, fn, label)
+        for kind in ("set", "clear"):
+            mine = [e for e in ev if e[1] == kind]
+            run.check("R3", "bitmap-%s@%s" % (kind, label), len(mine) == 1 and not [e for e in ev if e[1].startswith("?")],
+                      "%s updates the bitmap with %s" % (path, [e[1] for e in ev]), loc=fn.loc(), detail="bitmap %s (1 << offset) of the array's own bitmap" % ("|=" if kind == "set" else "&= !"))
+        run.check("R3", "bitmap-stored@" + label, len(ev) == 2, "%s does not store the updated bitmap twice (set, clear) into %s" % (path, "the tick_bitmap field" if label == "pinocchio" else "data[36..52]"),
+                  loc=fn.loc(), detail="bitmap written back")
     fn = facts.need_fn("state::dynamic_tick_array::DynamicTickArrayLoader::is_initialized_tick")
     pv = prov_of(fn)
     ok = False
